@@ -15,6 +15,7 @@ import (
 	"github.com/cloudflare/pint/internal/config"
 	"github.com/cloudflare/pint/internal/diags"
 	"github.com/cloudflare/pint/internal/discovery"
+	"github.com/cloudflare/pint/internal/output"
 	"github.com/cloudflare/pint/internal/parser"
 	"github.com/cloudflare/pint/verifharness/explore"
 	"github.com/cloudflare/pint/verifharness/lib/pipeline"
@@ -405,6 +406,73 @@ func embedded(c *explore.Chooser) *explore.Case {
 	return cs
 }
 
+// carets: the rendered form of a diagnostic (what the console and pull-request comments show): the characters
+// above the caret run must be the fragment the diagnostic is about, also when multi-byte characters precede it.
+var caretDocs = []string{
+	"groups:\n- name: g\n  rules:\n  - alert: A\n    expr: up{job=~\"x\"} == 0\n",
+	"groups:\n- name: g\n  rules:\n  - alert: A\n    expr: up{dc=\"Zürich\", job=~\"x\"} == 0\n",
+	"groups:\n- name: g\n  rules:\n  - alert: Température\n    expr: up{dc=\"東京\", job=~\"x\"} == 0\n    labels:\n      ville: \"Zürich {{ $value }}\"\n",
+	"groups:\n- name: g\n  rules:\n  - {alert: Ärger, expr: 'up{job=~\"x\"} == 0'}\n",
+}
+
+func carets(c *explore.Chooser) *explore.Case {
+	text := caretDocs[c.Free(len(caretDocs), "doc")]
+	cs := &explore.Case{Input: map[string]any{"file": text}, Key: text, Outcome: "carets"}
+	path := pipeline.WriteFile("rules.yml", []byte(text))
+	entries, crash := pipeline.Parse(path, []byte(text), true, parser.PrometheusSchema, model.UTF8Validation)
+	if crash != nil {
+		return cs
+	}
+	reports, crash := pipeline.Lint(context.Background(), config.LintCommand, cfg, gen, entries)
+	if crash != nil {
+		return cs
+	}
+	lines := strings.Split(text, "\n")
+	for _, r := range reports {
+		for _, d := range r.Problem.Diagnostics {
+			dl := d.Pos.Len()
+			first, last := min(d.FirstColumn, dl), min(d.LastColumn, dl)
+			if first < 1 || last < first || d.Pos.Lines().First != d.Pos.Lines().Last {
+				continue
+			}
+			// the fragment as the file spells it
+			var want strings.Builder
+			for _, p := range expand(diags.VerifReadRange(first, last, d.Pos)) {
+				l := lines[p.line-1]
+				if p.col >= 1 && p.col <= len(l) {
+					want.WriteByte(l[p.col-1])
+				}
+			}
+			out := diags.InjectDiagnostics(text, []diags.Diagnostic{d}, output.None)
+			ol := strings.Split(out, "\n")
+			got := ""
+			for i := 0; i+1 < len(ol); i++ {
+				caret := ol[i+1]
+				if !strings.Contains(caret, "^") {
+					continue
+				}
+				src, cr := []rune(ol[i]), []rune(caret)
+				var sb strings.Builder
+				for k, ch := range cr {
+					if ch == '^' && k < len(src) {
+						sb.WriteRune(src[k])
+					}
+					if ch != '^' && ch != ' ' {
+						break
+					}
+				}
+				got = sb.String()
+				break
+			}
+			cs.Count("caret_lines", 1)
+			if got != want.String() {
+				cs.Violate("carets-point-at-wrong-characters reporter="+r.Problem.Reporter, fmt.Sprintf("the carets of %q stand under %q, the diagnostic is about %q", d.Message, got, want.String()), map[string]any{"file": text, "rendered": out})
+			}
+		}
+	}
+	return cs
+}
+
 func corpus(c *explore.Chooser) *explore.Case {
 	prior = 0
 	si := c.Free(len(seeds), "seed")
@@ -462,6 +530,7 @@ func main() {
 				return 2
 			}},
 			{Name: "corpus", Body: corpus, Setup: setup, Bound: func(string) int { return -1 }},
+			{Name: "carets", Body: carets, Setup: setup, Bound: func(string) int { return -1 }},
 			{Name: "embedded", Body: embedded, Setup: setup, Bound: func(t string) int {
 				if t == "thorough" {
 					return 2
